@@ -116,7 +116,9 @@ def _add_enum(container, e, docs, path):
 def _add_field(msg, scope, pkg, fld, num, docs, path):
     """scope = fully-qualified name of msg (without leading dot)."""
     name = fld['name']; t = fld.get('type', 'string')
-    f = msg.field.add(name=name, number=fld.get('number', num), json_name=fld.get('json_name', camel(name)))
+    f = msg.field.add(name=name, number=fld.get('number', num), json_name=fld.get('json_name', camel(name)) or camel(name))
+    if 'json_name' in fld and not fld['json_name']:
+        f.ClearField('json_name')          # json_name is optional in a descriptor; protoc fills it in, other producers need not
     docs.add(path, fld.get('doc'))
     f.label = 3 if fld.get('repeated') else 1
     if t in SCALARS:
